@@ -2837,6 +2837,24 @@ fn reveal_inner_stream(r: &Rng, out: &mut Out, thorough: bool) {
         p.extend_from_slice(b"why");
         crafted_reveal(r, out, 1, &p, 0, 0);
     }
+    // the announced value does not decode (too short for its kind, an unassigned code) and the padding behind it is
+    // itself a well-formed AVP record: the padding is padding, whatever it looks like
+    {
+        let pr = content_rng("padding that parses", "reveal");
+        for (attr, payload) in [(9u16, vec![7u8]), (5, vec![1, 2, 3]), (0, vec![0, 99]), (29, vec![0, 77]), (3, vec![0, 0, 1]), (35, vec![0; 9]), (13, vec![1; 15])] {
+            for pad_rec in [record(1, 0, 7, b"AB"), record(0, 0, 39, &[]), record(1, 0, 10, &[0, 4]), record(3, 0, 7, &pr.bytes(10))] {
+                let mut plain = ((6 + payload.len()) as u16).to_be_bytes().to_vec();
+                plain.extend_from_slice(&payload);
+                plain.extend_from_slice(&pad_rec);
+                while plain.len() % 16 != 0 {
+                    plain.push(0);
+                }
+                let s = secret(&pr);
+                let rv = pr.bytes(4);
+                out.push(format!("reveal Hidden({},{}) {} {}", attr, hex(&hide_raw(attr, &s, &rv, &plain)), hex(&s), hex(&rv)));
+            }
+        }
+    }
     for _ in 0..(if thorough { 6000 } else { 600 }) {
         let (rec, _) = bad_record(r, true);
         if rec.len() >= 6 && rec[2] == 0 && rec[3] == 0 && rec[0] & 2 == 0 {
@@ -3128,6 +3146,12 @@ fn c14_stream(r: &Rng, out: &mut Out, thorough: bool) {
     out.push("opts 13".to_string());
     for img in cross_layouts() {
         out.push(format!("opts {}", hex(&img)));
+        // … and cut short by one, two and three octets (a Length that claims a little more than is there)
+        for cut in 1..=3usize {
+            if img.len() > cut + 2 {
+                out.push(format!("opts {}", hex(&img[..img.len() - cut])));
+            }
+        }
     }
     let n = if thorough { 40000 } else { 4000 };
     for i in 0..n {
@@ -3362,6 +3386,21 @@ fn c17_stream(r: &Rng, out: &mut Out, n: usize) {
         }
         out.push(format!("word {} 0", k));
         out.push(format!("word {} 4294967295", k));
+    }
+    // a bitmask record at the very end of a list that has a vendor-specific record (skipped by its length) earlier on
+    for attr in [3u16, 4, 18, 19] {
+        for p in 1..=9usize {
+            let w = [0u8, 0, (p as u8) << 4, 0xC0];
+            let mut l = record(1, 9, 7, &vec![0x55; p]);
+            if p % 2 == 0 {
+                l.extend(record(1, 0, 10, &[0, 4]));
+            }
+            l.extend(record(1, 0, attr, &w));
+            out.push(format!("avps {}", hex(&l)));
+            let mut m = mt_record(&content_rng("c17 vendor", "x"));
+            m.extend(l);
+            out.push(format!("avps {}", hex(&m)));
+        }
     }
     // a bitmask record that carries more than its four octets: the word is the first four, whatever follows them (a
     // second word with the accessor bits set, a zero word in front of one, one to eight stray octets)
@@ -4297,6 +4336,10 @@ fn generate_base(prop: &str, tier: &str, seed: u64) -> Vec<String> {
             dictionary_stream(&r, &mut out, "dec");
             for (i, img) in cross_layouts().iter().enumerate() {
                 out.push(format!("dec {} {}", ["000", "111", "010", "101"][i % 4], hex(img)));
+                let cut = 1 + i % 3;
+                if img.len() > cut + 2 {
+                    out.push(format!("dec {} {}", ["000", "010"][i % 2], hex(&img[..img.len() - cut])));
+                }
             }
             // a bare AVP list is not bound by a 16-bit Length: more records than any message can hold (10922 six-octet
             // ones fill 65535 octets), one and two past that
@@ -4503,6 +4546,26 @@ fn generate_base(prop: &str, tier: &str, seed: u64) -> Vec<String> {
                 }
             }
             dictionary_stream(&r, &mut out, "fix");
+            // a hidden AVP whose octets happen to read as the *clear* hidden subformat (length word 6 + n, n octets, zero
+            // padding to the chunk size, or random padding): it is a hidden AVP all the same, and stays one
+            {
+                let hr = content_rng("clear subformat", "c10");
+                for attr in [7u16, 9, 11, 0, 39] {
+                    for nlen in [0usize, 1, 2, 8, 13, 14, 15, 20, 30] {
+                        for zero_pad in [true, false] {
+                            let mut v = ((6 + nlen) as u16).to_be_bytes().to_vec();
+                            v.extend(hr.bytes(nlen));
+                            while v.len() % 16 != 0 {
+                                v.push(if zero_pad { 0 } else { hr.next() as u8 });
+                            }
+                            let rec = record(3, 0, attr, &v);
+                            let img = assemble(0x1320, 1, 2, 3, 4, &[mt_record(&hr), rec.clone()]);
+                            out.push(format!("fix 111 {}", hex(&img)));
+                            out.push(format!("fix 000 {}", hex(&assemble(0x1320, 1, 2, 3, 4, &[mt_record(&hr), record(1, 0, 36, &hr.bytes(4)), rec]))));
+                        }
+                    }
+                }
+            }
             for (i, img) in cross_layouts().iter().enumerate() {
                 out.push(format!("fix {} {}", if i % 2 == 0 { "000" } else { "010" }, hex(img)));
             }
